@@ -418,8 +418,21 @@ def run_history(h: dict) -> dict:
         state_before = [enc_live(x, w) for x in cur.data]
         # ---- run
         try:
-            res = call()
+            from ..common import ImplTimeout, time_limit
+            with time_limit(5):
+                res = call()
             err = None
+        except ImplTimeout:
+            # e.g. `tl += tl` when += appends item by item: the call never returns (and the list grows)
+            err = "exc:did-not-terminate"
+            res = None
+            try:
+                del cur.data[10000:]
+            except Exception:  # noqa: BLE001
+                pass
+        except MemoryError:
+            err = "exc:MemoryError"
+            res = None
         except Exception as e:  # noqa: BLE001
             err = exc_code(e)
             res = None
